@@ -989,6 +989,16 @@ EXTRACTORS["C05"] = EXTRACTORS.get("C05", []) + [gen_occ, GEN_SRC["SrcOcc"], GEN
 EXTRACTORS["C03"] = EXTRACTORS["C03"] + [GEN_SRC["SrcSampledGet"], GEN_SRC["SrcOcc"]]
 
 
+# genfmd: the FMD index (C06: bi-interval extensions, `smems`, `all_smems`) — dialect "fmd" of tools/rs2lean_fm.py;
+# Thm/C06.lean imports RbV.Thm.GenSrcFmd* and restates the theorems
+GEN_SRC.update({n: gen_src(n) for n in ("SrcFmdExt", "SrcFmdSmems", "SrcFmdAllSmems")})
+EXTRACTORS["C06"] = EXTRACTORS.get("C06", []) + [GEN_SRC[n] for n in ("SrcFmdExt", "SrcFmdSmems", "SrcFmdAllSmems")]
+
+# genfmd: `shortest_unique_substrings` (C03) — Thm/C03.lean imports RbV.Thm.GenSrcSus and restates
+GEN_SRC.update({n: gen_src(n) for n in ("SrcSus",)})
+EXTRACTORS["C03"] = EXTRACTORS["C03"] + [GEN_SRC["SrcSus"]]
+
+
 # additive registrations (kept outside the dict literal so that concurrent edits merge)
 EXTRACTORS["C03"] = EXTRACTORS["C03"] + [gen_saiswidth]
 THEOREMS["SaisWidth"] = ["RbV.Thm.C03.sais_width_arms_fit", "RbV.Thm.C03.sais_reduced_width_fits",
